@@ -30,6 +30,11 @@ for sid in ids:
     d = os.path.join(SEEDED, sid)
     meta = json.load(open(os.path.join(d, 'meta.json')))
     prop = meta['property']
+    if meta.get('obsolete'):
+        # the tree has since been changed so that this edit no longer alters
+        # behaviour (see meta['obsolete'])
+        print('%s: obsolete, skipped' % sid)
+        continue
     wt = '/var/tmp/verif-mut-%s-%d' % (sid, os.getpid())
     subprocess.check_call(['git', '-C', '/repo', 'worktree', 'add', '-q',
                            '--detach', wt, 'HEAD'])
